@@ -334,7 +334,7 @@ def plain_config(p, save_dir, chunks_dir, slp, key):
             "np_chunks_path": chunks_dir,
             "use_existing_chunks": False,
             "delete_chunks_after_training": p["delete_chunks"],
-            "preprocessing": {"is_rgb": False, "max_width": None, "max_height": None, "scale": p.get("scale", 0.25),
+            "preprocessing": {"is_rgb": bool(p.get("is_rgb")), "max_width": p.get("max_hw"), "max_height": p.get("max_hw"), "scale": p.get("scale", 0.25),
                               "crop_hw": [48, 48] if (p["model_type"] == "centered_instance" and not p.get("crop_auto")) else None,
                               "min_crop_size": p.get("min_crop_size")},
             "use_augmentations_train": p.get("aug", False),
@@ -345,7 +345,7 @@ def plain_config(p, save_dir, chunks_dir, slp, key):
             "pre_trained_weights": None,
             "pretrained_backbone_weights": None,
             "pretrained_head_weights": None,
-            "backbone_config": {"unet": {"in_channels": 1, "kernel_size": 3, "filters": 4, "filters_rate": 1.5,
+            "backbone_config": {"unet": {"in_channels": 3 if p.get("is_rgb") else 1, "kernel_size": 3, "filters": 4, "filters_rate": 1.5,
                                          "max_stride": 8, "convs_per_block": 2, "stacks": 1, "stem_stride": None,
                                          "middle_block": True, "up_interpolate": True, "output_stride": 2}},
             "head_configs": head_cfg(p["model_type"]),
@@ -421,9 +421,9 @@ def build_config(p, save_dir, chunks_dir, slp, key):
     pre = dc["preprocessing"]
     data_config = T.get_data_config(
         train_labels_path=slp, val_labels_path=slp, data_pipeline_fw=p["fw"], np_chunks_path=chunks_dir,
-        delete_chunks_after_training=p["delete_chunks"], is_rgb=False, scale=pre["scale"],
+        delete_chunks_after_training=p["delete_chunks"], is_rgb=pre["is_rgb"], scale=pre["scale"], max_height=pre["max_height"], max_width=pre["max_width"],
         crop_hw=tuple(pre["crop_hw"]) if pre["crop_hw"] else None, min_crop_size=pre["min_crop_size"],
-        use_augmentations_train=False,
+        use_augmentations_train=bool(p.get("aug", False)),
     )
     heads = {k: v for k, v in d["model_config"]["head_configs"].items()}
     model_config = T.get_model_config(
